@@ -695,6 +695,8 @@ def np_call(ev, name, args, kwargs, node):
     if name in ("ravel", "flatten", "reshape") and kwargs.get("order") not in (None, Const("C")):
         # memory-order dependent flattening ("K"/"A"/"F") is not the logical (row-major) order of the elements
         return App("reorder:" + name, [as_v(ev, a) for a in A], _kw(ev, kwargs))
+    if name == "reshape" and not kwargs:
+        return mk_app("reshape", [as_v(ev, a) for a in A])
     if name in PURE_UNINTERPRETED:
         return App(name, [as_v(ev, a) for a in A], _kw(ev, kwargs))
     ev.note_unmodelled("numpy." + name, node)
